@@ -1,0 +1,147 @@
+// Verification hook (cargo feature `verif`): build one column from arrays with explicit
+// encoding / char width / block size and scan it back with an explicit sequence of
+// `next_batch` / `skip` / `fetch_hint` calls. A thin wrapper over the real column builders,
+// `IndexBuilder`, `ColumnIndex`, `Column` and `ColumnIteratorImpl`.
+
+use bytes::Bytes;
+use moka::future::Cache;
+use risinglight_proto::rowset::block_checksum::ChecksumType;
+
+use super::column::{
+    CharBlockIteratorFactory, CharColumnBuilder, CharColumnIterator, Column, ColumnBuilderImpl,
+    ColumnIteratorImpl, ColumnReadableFile,
+};
+use super::index_builder::IndexBuilder;
+use super::{BlockCacheKey, ColumnBuilderOptions, ColumnIndex, EncodeType};
+use crate::array::ArrayImpl;
+use crate::catalog::{ColumnCatalog, ColumnDesc};
+use crate::storage::StorageResult;
+use crate::types::DataType;
+
+#[derive(Debug, Clone)]
+pub struct ColumnSpec {
+    pub data_type: DataType,
+    pub nullable: bool,
+    /// 0 = plain, 1 = run-length, 2 = dictionary
+    pub encode: u8,
+    /// fixed-width char column when `Some` (string type only)
+    pub char_width: Option<u64>,
+    pub block_size: usize,
+    pub checksum: bool,
+    pub record_first_key: bool,
+}
+
+#[derive(Debug, Clone, Copy)]
+pub enum ScanOp {
+    Next(Option<usize>),
+    Skip(usize),
+    Hint,
+}
+
+#[derive(Debug, Clone)]
+pub enum ScanEvent {
+    Batch(u32, ArrayImpl),
+    End,
+    Hint(usize, bool),
+    /// `fetch_current_row_id` observed after a skip
+    RowId(u32),
+}
+
+/// (`first_rowid`, `row_count`, offset, length) of every block
+pub type BlockIndexSummary = Vec<(u32, u32, u64, u64)>;
+
+pub struct BuiltColumn {
+    pub spec: ColumnSpec,
+    pub data: Vec<u8>,
+    pub index: Vec<u8>,
+    pub blocks: BlockIndexSummary,
+}
+
+pub fn build(spec: &ColumnSpec, pieces: &[ArrayImpl]) -> BuiltColumn {
+    let checksum_type = if spec.checksum {
+        ChecksumType::Crc32
+    } else {
+        ChecksumType::None
+    };
+    let options = ColumnBuilderOptions {
+        target_block_size: spec.block_size,
+        checksum_type,
+        encode_type: match spec.encode {
+            0 => EncodeType::Plain,
+            1 => EncodeType::RunLength,
+            _ => EncodeType::Dictionary,
+        },
+        record_first_key: spec.record_first_key,
+    };
+    let mut builder = match (&spec.data_type, spec.char_width) {
+        (DataType::String, Some(w)) => {
+            ColumnBuilderImpl::String(CharColumnBuilder::new(spec.nullable, Some(w), options))
+        }
+        _ => ColumnBuilderImpl::new_from_datatype(&spec.data_type, spec.nullable, options),
+    };
+    for p in pieces {
+        builder.append(p);
+    }
+    let (indexes, data) = builder.finish();
+    let blocks = indexes
+        .iter()
+        .map(|i| (i.first_rowid, i.row_count, i.offset, i.length))
+        .collect();
+    let mut ib = IndexBuilder::new(checksum_type, indexes.len());
+    for i in indexes {
+        ib.append(i);
+    }
+    BuiltColumn {
+        spec: spec.clone(),
+        data,
+        index: ib.finish(),
+        blocks,
+    }
+}
+
+pub async fn scan(
+    col: &BuiltColumn,
+    start_row: u32,
+    ops: &[ScanOp],
+) -> StorageResult<Vec<ScanEvent>> {
+    let index = ColumnIndex::from_bytes(&col.index)?;
+    let column = Column::new(
+        index,
+        ColumnReadableFile::InMemory(Bytes::from(col.data.clone())),
+        Cache::new(4),
+        BlockCacheKey::default(),
+    );
+    let info = ColumnCatalog::new(
+        0,
+        ColumnDesc::new("c", col.spec.data_type.clone(), col.spec.nullable),
+    );
+    let mut it = match (&col.spec.data_type, col.spec.char_width) {
+        (DataType::String, Some(w)) => ColumnIteratorImpl::Char(
+            CharColumnIterator::new(
+                column,
+                start_row,
+                CharBlockIteratorFactory::new(Some(w as usize)),
+            )
+            .await?,
+        ),
+        _ => ColumnIteratorImpl::new(column, &info, start_row).await?,
+    };
+    let mut events = vec![];
+    for op in ops {
+        match *op {
+            ScanOp::Next(n) => match it.next_batch(n).await? {
+                Some((row_id, a)) => events.push(ScanEvent::Batch(row_id, a)),
+                None => events.push(ScanEvent::End),
+            },
+            ScanOp::Skip(n) => {
+                it.skip(n);
+                events.push(ScanEvent::RowId(it.fetch_current_row_id()));
+            }
+            ScanOp::Hint => {
+                let (n, fin) = it.fetch_hint();
+                events.push(ScanEvent::Hint(n, fin));
+            }
+        }
+    }
+    Ok(events)
+}
